@@ -349,6 +349,8 @@ func H16_history() {
 	segI, _, err := z.newWithChunkMode(docs, DefaultChunkMode)
 	vAssert(err == nil, "build")
 	sb := segI.(*SegmentBase)
+	// lockset: the cache map is only touched with the cache's lock held
+	vGuardMap(sb.vecIndexCache.cache, &sb.vecIndexCache.m)
 	type handle struct {
 		vi       segment.VectorIndex
 		excl     []bool
